@@ -128,6 +128,14 @@ def check(F, rep, tier):
         else:
             rep.ok("R11.7", "the parser never stores an all-digit local part as text", nontrivial_key="bignum-none")
     eq_via_cmp(F, rep, "R11.4", PEP, f)
+    # ---- R11.8 the greatest PEP 440 tag on a commit is chosen with this order, on the versions as parsed ------------------------------
+    fm_ = [x for x in F.find("GitUtils::find_max_version_tag") if x.kind == "assoc"]
+    if rep.anchor("R11.8", "GitUtils::find_max_version_tag", fm_):
+        import c10 as _c10
+        cg_ = mir.CallGraph(F)
+        if f.path in cg_.closure([fm_[0].path], generic=False): rep.ok("R11.8", "the tag choice reaches <PEP440 as Ord>::cmp", nontrivial_key="maxbypep")
+        else: rep.bad("R11.8", "max-by-other-order", "the comparator used to choose the greatest tag does not reach <PEP440 as Ord>::cmp", fm_[0].where())
+        _c10.tag_choice_rule(F, rep, cg_, fm_[0], "R11.8", "PEP440", "__none__")
     # derived PartialEq on LocalSegment is structural; check that PEP440 equality does not use it for `local` outside cmp
     # ---- R11.5 spelling funnel: every spelling must reach the comparator at all - the parser adds no accept/reject
     # decision of its own (leading zeros, separators, labels) and loses no number (shared rules with C09)
@@ -146,6 +154,7 @@ def check(F, rep, tier):
                 nstr += 1
                 rep.bad("R11.6", "local-text-unsanitised:" + p_.replace("crate::", "").rsplit("::", 1)[-1], "a text local part is built with LocalSegment::Str(..) directly instead of LocalSegment::try_new_str: it skips the sanitiser that strips leading zeros of digit runs and unifies spelling, so two spellings of one version get different comparison keys", "%s bb%d line %s" % (g_.where(), bi, g_.blocks[bi]["line"]))
     if not nstr: rep.ok("R11.6", "the PEP 440 parser and normaliser build text local parts only through LocalSegment::try_new_str", nontrivial_key="viasan")
+    core.borrow(F, rep, "c09", "C09", "R11.5", ("R09.5:label-",), "every spelling of a pre-release label the grammar accepts reaches the same label (case, alternative names)")
     core.borrow(F, rep, "c07", "C07", "R11.6", ("preset-config:pep440_local_str",), "the local-segment sanitiser preset does not shorten segments")
     return core.finish(rep, explanation=EXPL, assumptions=ASSUME, trusted=TRUST)
 
